@@ -668,9 +668,13 @@ class Interp:
         else:
             self.exec_block(st.orelse, fr)
 
+    def _while_test(self, st, fr):
+        fr.f_lineno = st.test.lineno          # as CPython: the frame's line is that of the test
+        return truth(self.ev(st.test, fr))
+
     def s_While(self, st, fr):
         n = 0
-        while truth(self.ev(st.test, fr)):
+        while self._while_test(st, fr):
             n += 1
             if n > 100000:
                 raise Unsupported("while loop bound exceeded")
@@ -1143,6 +1147,7 @@ class Interp:
             return super(f.cls, f.locals[first])
         fn = self.ev(n.func, fr)
         args = self._elts(n.args, fr)
+        fr.f_lineno = n.lineno
         kwargs = {}
         for k in n.keywords:
             if k.arg is None:
